@@ -26,7 +26,15 @@ def handler(job):
         # ONE set of array objects per data set for the whole history (a caller who keeps his diagrams and calls the estimator repeatedly):
         # a call that writes into its arguments changes what the later calls see
         if i not in cache:
-            cache[i] = [np.array(d, dtype=float).reshape(-1, 2) for d in sets[i]]
+            arrs, seen = [], {}
+            for d in sets[i]:
+                key = repr(d)
+                if job.get("share_equal") and key in seen:
+                    arrs.append(seen[key])          # a collection in which the SAME array object occurs more than once (resampling with replacement)
+                else:
+                    a_ = np.array(d, dtype=float).reshape(-1, 2)
+                    seen[key] = a_; arrs.append(a_)
+            cache[i] = arrs
         return cache[i]
     evs = []
     if job["kind"] == "landscaper":
@@ -61,16 +69,27 @@ def handler(job):
             single = len(X) == 1 and job.get("single_as_array", True)
             arg = X[0] if single else X
             before = [x.tobytes() for x in X]
+            empties_ok = 1
             if op == 1:
                 est.fit(arg, skew=skew); outs = []
             else:
-                if op == 2:
+                if op == 2 and not single and job.get("empties"):
+                    # empty diagrams in front of and between the others: their images are all-zero and everybody keeps his place
+                    E = np.zeros((0, 2))
+                    Xe, pos = [E], []
+                    for x in X:
+                        pos.append(len(Xe)); Xe.append(x); Xe.append(E)
+                    r = est.transform(Xe, skew=skew, n_jobs=nj) if nj else est.transform(Xe, skew=skew)
+                    r = list(r)
+                    empties_ok = int(len(r) == len(Xe) and all(not np.any(np.asarray(r[q])) for q in range(len(Xe)) if q not in pos))
+                    r = [r[q] for q in pos] if len(r) == len(Xe) else r
+                elif op == 2:
                     r = est.transform(arg, skew=skew, n_jobs=nj) if (nj and not single) else est.transform(arg, skew=skew)
                 else:
                     r = est.fit_transform(arg, skew=skew)
                 imgs = [r] if single else list(r)
                 outs = [[1000 * ds + j, dig(im)] for j, im in enumerate(imgs)]
-            evs.append(dict(op=op, ds=ds, attrs=attrs(), statekey=dig_state(attrs()), outs=outs, mutated=[x.tobytes() for x in X] != before))
+            evs.append(dict(op=op, ds=ds, attrs=attrs(), statekey=dig_state(attrs()), outs=outs, mutated=[x.tobytes() for x in X] != before, empties_ok=empties_ok))
     return {"events": evs, "init": init}
 
 
